@@ -147,6 +147,7 @@ class World:
         self.stale = {'P': set(), 'T': set()}
         self.obsolete = False
         self.txdel = set()
+        self.txupd = set()       # keys assigned to through transaction-side instances since the last commit / rollback / close
         self.need_gc = False
         self.lines = ['init %d' % (1 if dc else 0)]
         self.impl = ['ok']
@@ -291,7 +292,7 @@ class World:
             for j in self.alive('P'):
                 k = self.keyof['P'][j]
                 pre[j] = (self.att['P'][j],
-                          bool(self.ref_attached_alive('T', k)) or k in self.txdel,
+                          bool(self.ref_attached_alive('T', k)) or k in self.txdel or k in self.txupd,
                           any(self.keyof['T'][i] == k and not self.att['T'][i] for i in range(len(self.refs['T']))),
                           (not self.dc) or k in self.weakened['T'])
         if kind == 'rollback' and not self.obsolete:
@@ -335,7 +336,7 @@ class World:
         if kind == 'commit' and ans == 'ok' and not was_obsolete:
             for j, r in enumerate(self.refs['P']):
                 k = self.keyof['P'][j]
-                if self.att['P'][j] and r() is not None and (self.ref_attached_alive('T', k) or k in self.txdel):
+                if self.att['P'][j] and r() is not None and (self.ref_attached_alive('T', k) or k in self.txdel or k in self.txupd):
                     self.att['P'][j] = False       # expire() evicts
         if kind == 'rollback' and ans == 'ok' and not was_obsolete:
             for j, r in enumerate(self.refs['T']):
@@ -466,6 +467,7 @@ class World:
         # --- bookkeeping of the harness (not of the model): transaction state as the API calls define it
         if kind == 'commit' and ans == 'ok' and not was_obsolete:
             self.ncommit += 1
+            self.txupd = set()
             if op[1]:
                 self.obsolete = True
                 self.txdel = set()
@@ -473,10 +475,13 @@ class World:
             self.ncommit += 1
             self.obsolete = True
             self.txdel = set()
+            self.txupd = set()
         elif kind == 'begin' and ans == 'ok':
             self.obsolete = False
         if kind == 'destroy' and sd == 'T':
             self.txdel.add(self.keyof['T'][op[2]])
+        if kind == 'set' and sd == 'T' and ans in ('ok', 'Assert'):
+            self.txupd.add(self.keyof['T'][op[2]])     # Transaction._SO_update notes the row before anything else
         if kind == 'commit_refused':
             if ans != 'Locked':
                 self.fail(None, 'a commit refused by the engine answered %s' % ans, 'commit-refused-answer')
@@ -720,14 +725,14 @@ CORPUS = [
     # (name, doCache, ops, expected known key or None)
     ('culled (explicit cull + drop)', True,
      [('create', 'P', 1, 1, 0), ('get', 'T', 1, False), ('set', 'T', 0, 0, 2), ('cull', 'T', 0), ('drop', 'T', 0),
-      ('commit', 0), ('read', 'P', 0, 0)], K_CULLED),
+      ('commit', 0), ('read', 'P', 0, 0)], None),
     ('culled (cache=False, tx instance dropped)', False,
      [('create', 'P', 1, 1, 0), ('get', 'T', 1, False), ('set', 'T', 0, 0, 2), ('drop', 'T', 0),
-      ('commit', 0), ('read', 'P', 0, 0)], K_CULLED),
-    ('culled (260 creates in the transaction)', True, bulk_history(260), K_CULLED),
+      ('commit', 0), ('read', 'P', 0, 0)], None),
+    ('culled (260 creates in the transaction)', True, bulk_history(260), None),
     ('tx instance detached by rollback', True,
      [('create', 'P', 1, 1, 0), ('get', 'T', 1, False), ('rollback',), ('begin',), ('set', 'T', 0, 0, 3),
-      ('commit', 0), ('read', 'P', 0, 0)], K_TXDET),
+      ('commit', 0), ('read', 'P', 0, 0)], None),
     ('parent instance detached by the first commit', True,
      [('create', 'P', 1, 1, 0), ('get', 'T', 1, False), ('set', 'T', 0, 0, 2), ('commit', 0), ('read', 'P', 0, 0),
       ('set', 'T', 0, 0, 3), ('commit', 0), ('read', 'P', 0, 0)], K_PDET),
@@ -1092,6 +1097,7 @@ class LazyWorld:
         self.att = {'P': [], 'T': []}           # reference: the unchanged code's cache would hand out this instance
         self.pend = {'P': [], 'T': []}          # reference: assignments issued and not yet synced / dropped
         self.first_read = {'P': {}, 'T': {}}    # instance -> 'rollback' | 'commit': its next read must show the view
+        self.txupd = set()                      # rows synced through transaction instances since the last commit / rollback
         self.obsolete = False
         self.fails = []
         self.lines = ['L init']
@@ -1222,6 +1228,8 @@ class LazyWorld:
             for i in range(len(self.att[sd])):
                 if self.keyof[sd][i] == self.keyof[sd][j]:
                     self.att[sd][i] = False
+        if kind == 'sync' and sd == 'T' and ans in ('ok', 'Assert') and self.pend[sd][j]:
+            self.txupd.add(self.keyof[sd][j])       # Transaction._SO_update notes the row before anything else
         # syncUpdate writes exactly the assignments issued since the instance was last synced / expired / rolled back
         if kind == 'sync' and ans == 'ok':
             ref_b = (raw_before if sd == 'P' else view_before) or {}
@@ -1244,8 +1252,10 @@ class LazyWorld:
                     self.att['T'][i] = False
                     self.pend['T'][i] = {}
                     self.first_read['T'][i] = 'rollback'
+            self.txupd = set()
         if kind == 'commit' and ans == 'ok' and not was_obsolete:
-            reached = set(self.keyof['T'][i] for i in range(len(self.att['T'])) if self.att['T'][i])
+            reached = set(self.keyof['T'][i] for i in range(len(self.att['T'])) if self.att['T'][i]) | self.txupd
+            self.txupd = set()
             for i in range(len(self.att['P'])):
                 if self.att['P'][i] and self.keyof['P'][i] in reached:
                     self.att['P'][i] = False
